@@ -224,6 +224,9 @@ def cases(seed, tier):
     # ---- extra scenarios (right-hand side with control flow on t; one bck_options dict shared by several calls): vf/c08_extra.py
     from vf import c08_extra
     out.extend(c08_extra.cases(seed, tier))
+    # the monitors of C09 on solve_ivp: special representations (tied / duplicated / aliased tensors ...) and a failing call followed by a normal one
+    from vf import c09_extra as _c9x
+    out.extend(_c9x.delegated_cases(seed, tier, ("solve_ivp",), "c08d"))
     return out
 
 
@@ -713,6 +716,9 @@ def run_case(desc):
     if desc.get("group") == "extra":
         from vf import c08_extra
         return c08_extra.run_case(desc)
+    if desc.get("group") in ("c09rep", "c09abort"):
+        from vf import c09_extra
+        return c09_extra.run_delegated(desc)
     obs = Obs(desc)
     P, rng, tgen = build_problem(desc)
     group = desc["group"]
